@@ -236,9 +236,15 @@ def _provider_class():
             self.header_len = header_len
             self.wrap_calls = []
             self.unwrap_calls = []
-            self.ctx = ToyContext(self)
+            # run the real constructor; only `spnego.client` underneath it is the toy context
+            import dpapi_ng._rpc._auth as _auth
+            real_client = _auth.spnego.client
+            _auth.spnego.client = lambda *a, **kw: ToyContext(self)
+            try:
+                super().__init__("user", "pass", hostname="dc01", protocol={9: "negotiate", 10: "ntlm", 16: "kerberos"}.get(provider, "ntlm"))
+            finally:
+                _auth.spnego.client = real_client
             self.provider = SecurityProvider(provider)
-            self._header_length = 0
     return ScriptedProvider
 
 
